@@ -73,3 +73,19 @@ def match_d9(pid, case, d):
         return False
     ctx = d.get("context", {})
     return ctx.get("all_deltas_ns") == [DAY_NS]
+
+
+D5_WHERE = re.compile(r"^/imagery/[A-Za-z0-9_]+#data$")
+
+
+@matcher("D5")
+def match_d5(pid, case, d):
+    ctx = d.get("context", {})
+    fs = ctx.get("fs", case.get("fs"))
+    if fs not in ("memory", "vtrace"):
+        return False
+    if not D5_WHERE.match(d["where"]):
+        return False
+    if d["kind"] not in ("cached-differs", "history-differs", "torn-cache-differs"):
+        return False
+    return set(ctx.get("aspects", [])) <= {"load_error", "values"} and str(ctx.get("load_error", "")).startswith("FileNotFoundError")
